@@ -809,6 +809,11 @@ func runC08(c *eng.Ctx) {
 		{RebuildAfter: 2, Regs: []Reg{mkReg("Leaf_K1_a", godi.Singleton), mkReg("PosB_0_2", godi.Transient), {Remove: true, RmType: "K1", Tail: true}, mkReg("Leaf_S0_a", godi.Scoped)}},
 		{RebuildAfter: 2, Regs: []Reg{mkReg("Leaf_K1_c", godi.Scoped, withName("k")), mkReg("InU_0_2_Keyed", godi.Scoped), {Remove: true, RmType: "K1", RmKey: "k", Tail: true}}},
 		{RebuildAfter: 3, Regs: []Reg{mkReg("Leaf_K1_a", godi.Scoped), mkReg("VoidK1", godi.Scoped), mkReg("Leaf_S0_a", godi.Singleton), {Remove: true, RmType: "K1", Tail: true}}},
+		// RemoveKeyed with an int key that equals a group member's position removes nothing: the
+		// member is still validated (missing dependency -> Build fails) / still built and served
+		{Regs: []Reg{mkReg("PosA_1_1", godi.Scoped, withGroup("g")), {Remove: true, RmType: "K1", RmInt: 1, Tail: true}}},
+		{Regs: []Reg{mkReg("Leaf_K1_a", godi.Transient, withGroup("g")), mkReg("PosA_1_1", godi.Transient, withGroup("g")), {Remove: true, RmType: "K1", RmInt: 2, Tail: true}}},
+		{Regs: []Reg{mkReg("Leaf_K0_a", godi.Singleton), mkReg("PosA_1_1", godi.Singleton, withGroup("g")), mkReg("InU_2_2_Group", godi.Singleton), {Remove: true, RmType: "K1", RmInt: 1, Tail: true}}},
 		// ... and the converse: the missing dependency arrives after the first (failed) Build
 		{RebuildAfter: 1, Regs: []Reg{mkReg("PosA_0_2", godi.Scoped), mkReg("Leaf_K1_a", godi.Scoped)}},
 		// acceptance: empty group, absent optional
